@@ -431,6 +431,13 @@ func pathDepth(v ssa.Value, d int) string {
 			parts = append(parts, p)
 		}
 		return strings.TrimPrefix(recv, "&") + "." + short + "(" + strings.Join(parts, ",") + ")"
+	case *ssa.Phi:
+		// a merged source variable: named by the variable and the merge point, so that one phi
+		// always has one path and two different phis never share one
+		if x.Comment != "" {
+			return fmt.Sprintf("φ%s@%d", x.Comment, x.Block().Index)
+		}
+		return ""
 	case *ssa.IndexAddr:
 		base := pathDepth(x.X, d+1)
 		if base == "" {
@@ -622,9 +629,17 @@ func DependsOn(v ssa.Value, pred func(ssa.Value) bool) bool {
 		}
 		if a, ok := v.(*ssa.Alloc); ok {
 			for _, r := range *a.Referrers() {
-				if st, ok := r.(*ssa.Store); ok && st.Addr == a {
-					if walk(st.Val) {
+				switch rr := r.(type) {
+				case *ssa.Store:
+					if rr.Addr == a && walk(rr.Val) {
 						return true
+					}
+				case *ssa.IndexAddr, *ssa.FieldAddr:
+					// element / field stores of a composite built in this cell
+					for _, er := range *rr.(ssa.Value).Referrers() {
+						if st, ok := er.(*ssa.Store); ok && st.Addr == rr.(ssa.Value) && walk(st.Val) {
+							return true
+						}
 					}
 				}
 			}
